@@ -58,8 +58,8 @@ Proof. exact accept_complete. Qed.
 Print Assumptions C05_accept_complete.
 
 (** both directions at once, for every kind of credential, against the executable specification;
-    the guards left are the open findings C05-F3 (`exp` = -62135596800, the Unix time of Go's zero
-    time.Time, counts as absent) and C05-F5 (no `iss` while the empty string is a trusted issuer) *)
+    the one guard left ([open_guards] = [guard_F3]) is the open finding C05-F3 (`exp` = -62135596800, the
+    Unix time of Go's zero time.Time, counts as absent) *)
 Theorem C05_authenticate_iff_spec : forall cf ks now cr,
   sane_clock cf now -> open_guards cf cr = false ->
   accepted_sub (authenticate cf ks now cr) = spec_accepts cf ks now cr.
@@ -73,18 +73,18 @@ Theorem C05_F3_refuted :
 Proof. exact F3_refuted. Qed.
 Print Assumptions C05_F3_refuted.
 
-(** C05-F5 (open): no issuers configured and an (unverified) metadata document without issuer: a correctly
-    signed token WITHOUT `iss` is accepted *)
-Theorem C05_F5_refuted :
-  exists cf ks now cr, sane_clock cf now /\ guard_F3 cr = false /\ guard_F5 cf cr = true /\
-    accepted_sub (authenticate cf ks now cr) = Some "alice"%string /\ spec_accepts cf ks now cr = None.
-Proof. exact F5_refuted. Qed.
-Print Assumptions C05_F5_refuted.
+(** C05-F5 (repaired by d55629a; the model has the repair): no issuers configured and an (unverified) metadata
+    document without issuer, so that "" is the only trusted issuer: a correctly signed token WITHOUT `iss` is refused *)
+Example C05_F5_fixed :
+  exists cf ks now cr, sane_clock cf now /\ guard_F5 cf cr = true /\
+    authenticate cf ks now cr = Failed EAssertion /\ spec_accepts cf ks now cr = None.
+Proof. exact F5_fixed. Qed.
+Print Assumptions C05_F5_fixed.
 
 (** the code before a3a89b7 / f16c3cc met the specification outside C05-F1 (`exp <= 0` never expires)
     and C05-F2 (`nbf`/`iat` beyond int64 count as not set) ... *)
 Theorem C05_pinned_iff_spec : forall cf ks now cr,
-  sane_clock cf now -> guard_F1 cr = false -> guard_F2 cr = false -> guard_F5 cf cr = false ->
+  sane_clock cf now -> guard_F1 cr = false -> guard_F2 cr = false ->
   accepted_sub (authenticate_pinned cf ks now cr) = spec_accepts cf ks now cr.
 Proof. exact pinned_spec. Qed.
 Print Assumptions C05_pinned_iff_spec.
@@ -205,17 +205,17 @@ Print Assumptions C05_nonvacuous.
 (** [run_history f1 f2 f4 h]: the answers of the authenticators sharing one key-set endpoint configuration
     (a mechanism, its rule-level copies, other mechanisms over the same endpoint) to the requests [h] against
     one JWK cache, the published key sets possibly changing in between; the JWKS URL may be a template over
-    the token's unverified issuer.  [f4 = false] is the code as it is.
+    the token's unverified issuer; cache entries are keyed by (rendered url, kid, configured cache_ttl).
+    [f4 = true] is the code as it is (fix: d20d7cd validates a cached key with the settings at hand).
     [judged_statelessly f1 f2 pre s r]: [r] is the answer of the cache-less authenticator to request [s]
     against the key set that is or was (during [pre]) published at the URL rendered for THAT request's token,
     validated with THAT request's settings — so a key cached under one (rendered url, kid) is never used for
     another url or kid —, and against the present key set if the request cannot be served from the cache. *)
 Theorem C05_cache_history_stateless : forall f1 f2 h pre s post r,
-  (exists v, uniform_validation v h) \/ guard_F4 f1 f2 h = false ->
   h = pre ++ s :: post ->
-  nth_error (run_history f1 f2 false h) (length pre) = Some r ->
+  nth_error (run_history f1 f2 true h) (length pre) = Some r ->
   judged_statelessly f1 f2 pre s r.
-Proof. exact history_stateless_either. Qed.
+Proof. exact history_stateless_fixed. Qed.
 Print Assumptions C05_cache_history_stateless.
 
 Theorem C05_judged_statelessly_unfold : forall f1 f2 pre s r,
@@ -228,34 +228,33 @@ Print Assumptions C05_judged_statelessly_unfold.
     against what is or was published at its own key-set URL (now, if it cannot come from the cache); and
     always if it accepts it against all of those *)
 Theorem C05_cache_history_spec : forall h pre s post r,
-  (exists v, uniform_validation v h) \/ guard_F4 true true h = false ->
   h = pre ++ s :: post ->
-  nth_error (run_history true true false h) (length pre) = Some r ->
+  nth_error (run_history true true true h) (length pre) = Some r ->
   sane_clock (s_cf s) (s_now s) -> open_guards (s_cf s) (s_cred s) = false ->
   meets_spec pre s r.
-Proof. exact history_spec. Qed.
+Proof. exact history_spec_fixed. Qed.
 Print Assumptions C05_cache_history_spec.
 
-(** C05-F4 (open): the cached key is not re-validated and the cache key covers neither validate_jwk nor the
-    trust store: a strict authenticator accepts through a key that a lax one cached, although the
-    specification rejects the token in every world of the history.  With fixes/C05-F4.diff it is refused, ... *)
-Theorem C05_F4_refuted :
+(** C05-F4 as it was before d20d7cd (the cached key was not re-validated, and the cache key covers neither
+    validate_jwk nor the trust store): the statement held for histories validating alike or outside the guard ... *)
+Theorem C05_cache_pinned_history_stateless : forall f1 f2 h pre s post r,
+  (exists v, uniform_validation v h) \/ guard_F4 f1 f2 h = false ->
+  h = pre ++ s :: post ->
+  nth_error (run_history f1 f2 false h) (length pre) = Some r ->
+  judged_statelessly f1 f2 pre s r.
+Proof. exact history_stateless_either. Qed.
+Print Assumptions C05_cache_pinned_history_stateless.
+
+(** ... and failed inside: a strict authenticator accepted through a key that a lax one had cached, although
+    the specification rejects the token in every world of the history; the code as it is refuses it *)
+Theorem C05_F4_pinned_refuted :
   let h := [exc_who true; exc_who false; exc_who true] in
   guard_F4 true true h = true /\
   run_history true true false h = [Failed EKey; Accepted "alice"; Accepted "alice"] /\
   run_history true true true h = [Failed EKey; Accepted "alice"; Failed EKey] /\
   ~ meets_spec [exc_who true; exc_who false] (exc_who true) (Accepted "alice").
 Proof. exact F4_refuted. Qed.
-Print Assumptions C05_F4_refuted.
-
-(** ... and the statement holds for every history, without hypothesis on the validation settings *)
-Theorem C05_cache_fixed_history_spec : forall h pre s post r,
-  h = pre ++ s :: post ->
-  nth_error (run_history true true true h) (length pre) = Some r ->
-  (judged_statelessly true true pre s r) /\
-  (sane_clock (s_cf s) (s_now s) -> open_guards (s_cf s) (s_cred s) = false -> meets_spec pre s r).
-Proof. exact history_fixed_both. Qed.
-Print Assumptions C05_cache_fixed_history_spec.
+Print Assumptions C05_F4_pinned_refuted.
 
 (** while the published key sets do not change the cache is invisible *)
 Theorem C05_cache_transparent : forall f1 f2 f4 v h pre s post r env0,
@@ -269,12 +268,12 @@ Print Assumptions C05_cache_transparent.
 
 (** non-vacuity: tenants sharing a kid behind a templated endpoint; a rotation *)
 Example C05_cache_examples :
-  run_history true true false
+  run_history true true true
     [exc_step true (exc_env 3 4) (exc_tok "tenant-a" "k1" 3);
      exc_step true (exc_env 3 4) (exc_tok "tenant-b" "k1" 3);
      exc_step true (exc_env 3 4) (exc_tok "tenant-b" "k1" 4)]
   = [Accepted "alice"; Failed ESignature; Accepted "alice"] /\
-  run_history true true false
+  run_history true true true
     [exc_step true (exc_env 3 4) (exc_tok "tenant-a" "k1" 3);
      exc_step true (exc_env 4 4) (exc_tok "tenant-a" "k1" 3);
      exc_step true (exc_env 4 4) (exc_tok "tenant-a" "k1" 4);
